@@ -8,6 +8,68 @@ def is_num(T):
     return (T or {}).get("k") in ("int", "bool", "enum", "float")
 
 
+def type_corpus(tier):
+    from ..witness import W, TYPE_MARK
+    from .c01 import lv
+    types = ["int", "unsigned char", "long", "unsigned long long", "bool", "double"] if tier == "quick" else \
+            ["int", "unsigned char", "signed char", "char", "short", "unsigned short", "unsigned int", "long", "unsigned long", "long long", "unsigned long long", "bool", "double", "float", "char16_t"]
+    floats = {"double", "float"}
+    ws = []
+    arith = ops.ARITH
+    for A in types:
+        for B in types:
+            for op in arith + ops.CMPS:
+                intonly = op in ("%", "^", "&", "|", "<<", ">>")
+                plain_ok = not (intonly and (A in floats or B in floats))
+                forms = [("tainted", "tainted"), ("tainted", "plain"), ("plain", "tainted"), ("tainted_volatile", "tainted"), ("tainted", "tainted_volatile")]
+                if tier != "quick":
+                    forms += [("tainted_volatile", "plain"), ("plain", "tainted_volatile")]
+                for fa, fb in forms:
+                    a = lv(fa, A) if fa != "plain" else "vb_lv<%s>()" % A
+                    b = lv(fb, B) if fb != "plain" else "vb_lv<%s>()" % B
+                    desc = "%s<%s> %s %s<%s>" % (fa, A, op, fb, B)
+                    if not plain_ok:
+                        ws.append(W("must_reject", "auto&& r = (%s %s %s); (void)r;" % (a, op, b), desc + " [plain expression is ill-formed]", group="types-reject"))
+                        continue
+                    plain = "decltype(std::declval<%s>() %s std::declval<%s>())" % (A, op, B)
+                    if op in ops.CMPS:
+                        vol = "tainted_volatile" in (fa, fb)
+                        exp = "tainted_boolean_hint" if vol else "tainted<bool, M<@N>>"
+                    else:
+                        exp = "tainted<%s, M<@N>>" % plain
+                    body = "auto&& r = (%s %s %s); static_assert(std::is_same_v<std::remove_cv_t<std::remove_reference_t<decltype(r)>>, %s>, \"%s\"); (void)r;" % (a, op, b, exp, TYPE_MARK)
+                    ws.append(W("type_if_compiles", body, desc, group="types"))
+    return ws
+
+
+def run_types(rep, tier):
+    from .. import witness
+    from .c01 import generic_site
+    rep.rule("W-C16-types", "for every operator x operand-wrapper combination x type pair that compiles, the result type is exactly tainted<decltype(plain_a OP plain_b)> "
+             "(comparisons: tainted<bool>, or tainted_boolean_hint when sandbox-resident data is involved); combinations whose plain expression is ill-formed are rejected. Compiler-judged")
+    ws = type_corpus(tier)
+    for i, w in enumerate(ws):
+        w.n = 1000 + i
+    res, unattr = witness.judge(ws, "clang++", batch=100)
+    rep.require(len(unattr) == 0, "unattributed compiler errors in the type corpus: %s" % unattr[:2])
+    st = {}
+    for w in ws:
+        verdict, msgs = res[w.n]
+        bad = witness.alarm(w, verdict) if w.kind == "must_reject" else verdict.startswith("oracle:")
+        if bad:
+            verdict, msgs = witness.confirm(w)
+            bad = witness.alarm(w, verdict) if w.kind == "must_reject" else verdict.startswith("oracle:")
+        st[verdict.split(":")[0]] = st.get(verdict.split(":")[0], 0) + 1
+        if bad:
+            what = "RLBox accepts an operand combination the plain operator rejects" if w.kind == "must_reject" else "the wrapped result type differs from the type of the plain expression (%s)" % (msgs[:1] or [""])[0][:200]
+            rep.violation("W-C16-types", "form: " + generic_site(w.desc), "%s: %s" % (w.desc, what), "W:%d" % w.n, w.desc)
+        else:
+            rep.ok("W-C16-types", "form: " + generic_site(w.desc), "%s -> %s" % (w.desc, verdict), w.desc, nontrivial=(verdict == "accept"))
+    rep.extra["type_witnesses"] = len(ws)
+    rep.extra["type_verdicts"] = st
+    rep.require(st.get("accept", 0) >= 1000, "only %d type witnesses compile" % st.get("accept", 0))
+
+
 def run(rep, tier):
     rep.rule("R-C16-wiring", "for each instantiated member/free operator on numeric wrappers the value stored in the returned wrapper is exactly `value(this) OP value(rhs)` "
              "(for plain-left forms `lhs OP value(rhs)` in that order) where OP is the operator being defined and value(x) is the wrapper's (ABI-converted) content; "
@@ -54,4 +116,5 @@ def run(rep, tier):
     missing = need - seen_ops
     rep.require(not missing, "operators without any analysed instantiation: %s" % sorted(missing))
     rep.extra.update({"instantiations": n, "operators_seen": sorted(seen_ops)})
+    run_types(rep, tier)
     rep.assumptions += ["undefined behaviour of the plain operator is outside the property", "value-level equality follows from identical operator, operand order and operand types (no sampling)"]
